@@ -10,10 +10,14 @@ import (
 	"sync"
 
 	"github.com/invopop/gobl"
+	"github.com/invopop/gobl/bill"
 	"github.com/invopop/gobl/cbc"
 	"github.com/invopop/gobl/dsig"
 	"github.com/invopop/gobl/head"
 	"github.com/invopop/gobl/internal"
+	"github.com/invopop/gobl/note"
+	"github.com/invopop/gobl/num"
+	"github.com/invopop/gobl/org"
 	"github.com/invopop/gobl/schema"
 	"github.com/invopop/gobl/uuid"
 )
@@ -125,6 +129,7 @@ type sigRec struct {
 type lifeModel struct {
 	digestMatches bool   // derived: the document's content equals the content the digest was computed over
 	calcDoc       []byte // document bytes at the last successful calculation (what head.dig covers)
+	liveEdited    bool   // the document was changed in memory since the last calculation
 	sigs          []sigRec
 	garbageSigs   bool // the signature list was damaged on disk
 }
@@ -266,6 +271,10 @@ func headerOK(h *head.Header, signed bool) (bool, string) {
 // refreshDigestFact recomputes the abstract fact "the digest matches the
 // document" by comparing content (harness JSON comparison, not gobl's digest).
 func (s *lifeSlot) refreshDigestFact() {
+	if s.m.liveEdited {
+		s.m.digestMatches = false
+		return
+	}
 	cur, err := json.Marshal(s.env.Document)
 	if err != nil || s.m.calcDoc == nil {
 		s.m.digestMatches = false
@@ -280,6 +289,7 @@ func (s *lifeSlot) refreshDigestFact() {
 func (s *lifeSlot) markCalculated() {
 	s.m.calcDoc, _ = json.Marshal(s.env.Document)
 	s.m.digestMatches = true
+	s.m.liveEdited = false
 }
 
 // predictValidate: "" (ok), "validation" or "digest".
@@ -382,6 +392,25 @@ func lifeEdit(env *gobl.Envelope, op Op) bool {
 			v.Set("name", JStr("Restored Name"))
 			changed = true
 		}
+	case "live-qty", "live-note":
+		// an in-memory edit through the typed API (no serialisation involved)
+		inv, _ := env.Extract().(*bill.Invoice)
+		if inv == nil {
+			if msg, ok := env.Extract().(*note.Message); ok && msg != nil {
+				msg.Content = msg.Content + " (edited in memory)"
+				return true
+			}
+			return false
+		}
+		if op.S == "live-qty" {
+			if len(inv.Lines) == 0 {
+				return false
+			}
+			inv.Lines[0].Quantity = inv.Lines[0].Quantity.Add(num.MakeAmount(1, 0))
+			return true
+		}
+		inv.Notes = append(inv.Notes, &org.Note{Text: "added in memory"})
+		return true
 	case "setcode":
 		if v.Get("code").Str() != op.S2 {
 			v.Set("code", JStr(op.S2))
